@@ -1568,6 +1568,8 @@ func modeC05(repo string) {
 	onErrorShape(c, repo)
 	signalErrShape(c, repo)
 	chainShape(c, repo)
+	retryStep(c, parse(filepath.Join(repo, "exporter/exporterhelper/internal/retry_sender.go")))
+	timeoutStep(c, toF)
 	skeletonsC05(c, repo)
 	c.out.WriteString("end OtelVerif.Gen.RetryCfg\n")
 	fmt.Print(c.out.String())
@@ -2011,6 +2013,259 @@ func skeletonsC18(c *comp, repo string) {
 	skeleton(c, "skel_readInt", "`CGroup.readInt`", findFunc(cg1F, "CGroup", "readInt"))
 	fF := parse(filepath.Join(repo, "processor/memorylimiterprocessor/factory.go"))
 	skeleton(c, "skel_getMemoryLimiter", "`factory.getMemoryLimiter`", findFunc(fF, "factory", "getMemoryLimiter"))
+}
+
+// ---------------------------------------------------------------------------------------------------------------
+// retrySender.Send: the per-iteration decision chain as a pure step function.
+// The loop itself (for / blocking select / timers) stays hand-modelled; everything between the call of the next sender and
+// the blocking select is an if-chain over values that are inputs of the iteration. Each leaf condition / value of the Go
+// code is mapped to a field of `StepIn` by its exact source text (table below); anything not in the table -> exit 2.
+
+var stepLeaf = map[string]string{
+	"err == nil":                           "i.errNil",
+	"consumererror.IsPermanent(err)":       "i.permanent",
+	"backoffDelay == backoff.Stop":         "decide (backoffDelay = i.backoffStop)",
+	"errors.As(err, &throttleErr)":         "i.throttle.isSome",
+	"maxElapsedTime.IsZero()":              "i.maxElapsed.isNone",
+	"maxElapsedTime.Before(nextRetryTime)": "decide (i.maxElapsed.getD 0 < nextRetryTime)",
+	"has":                                  "i.deadline.isSome",
+	"deadline.Before(nextRetryTime)":       "decide (i.deadline.getD 0 < nextRetryTime)",
+	"ctx.Err() != nil":                     "i.ctxErr",
+	"ok":                                   "i.hasErrorHandler",
+}
+
+func stepCond(e ast.Expr) string {
+	if l, ok := stepLeaf[exprStr(e)]; ok {
+		return l
+	}
+	switch x := e.(type) {
+	case *ast.ParenExpr:
+		return "(" + stepCond(x.X) + ")"
+	case *ast.UnaryExpr:
+		if x.Op == token.NOT {
+			return "!(" + stepCond(x.X) + ")"
+		}
+	case *ast.BinaryExpr:
+		if x.Op == token.LAND {
+			return "(" + stepCond(x.X) + " && " + stepCond(x.Y) + ")"
+		}
+		if x.Op == token.LOR {
+			return "(" + stepCond(x.X) + " || " + stepCond(x.Y) + ")"
+		}
+	}
+	die("%s: retry step: unknown condition `%s`", pos(e), exprStr(e))
+	return ""
+}
+
+// a return inside the loop -> StepOut
+func stepRet(r *ast.ReturnStmt) string {
+	if len(r.Results) != 1 {
+		die("%s: retry step: return with %d results", pos(r), len(r.Results))
+	}
+	t := exprStr(r.Results[0])
+	if t == "nil" {
+		return ".retNil"
+	}
+	if t == "experr.NewShutdownErr(err)" {
+		return ".retShutdown"
+	}
+	if call, ok := r.Results[0].(*ast.CallExpr); ok && exprStr(call.Fun) == "fmt.Errorf" && len(call.Args) == 2 && exprStr(call.Args[1]) == "err" {
+		if lit, ok := call.Args[0].(*ast.BasicLit); ok {
+			msg, _ := strconv.Unquote(lit.Value)
+			if strings.HasSuffix(msg, ": %w") {
+				return ".retWrap " + leanStr(strings.TrimSuffix(msg, ": %w"))
+			}
+		}
+	}
+	die("%s: retry step: unknown return `%s`", pos(r), t)
+	return ""
+}
+
+func singleReturn(l []ast.Stmt) *ast.ReturnStmt {
+	var body []ast.Stmt
+	for _, s := range l {
+		if !isNoise(s) {
+			body = append(body, s)
+		}
+	}
+	if len(body) == 1 {
+		if r, ok := body[0].(*ast.ReturnStmt); ok {
+			return r
+		}
+	}
+	return nil
+}
+
+func retryStep(c *comp, f *ast.File) {
+	fd := findFunc(f, "retrySender", "Send")
+	var loop *ast.ForStmt
+	for _, s := range fd.Body.List {
+		if l, ok := s.(*ast.ForStmt); ok {
+			if loop != nil {
+				die("retrySender.Send: more than one loop")
+			}
+			loop = l
+		}
+	}
+	if loop == nil || loop.Init != nil || loop.Cond != nil || loop.Post != nil {
+		die("retrySender.Send: no `for { }` loop")
+	}
+	var stmts []ast.Stmt
+	for _, s := range loop.Body.List {
+		if !isNoise(s) {
+			stmts = append(stmts, s)
+		}
+	}
+	if len(stmts) < 3 || stmtStr(stmts[0]) != "err := rs.next.Send(ctx, req)" {
+		die("retrySender.Send: the loop does not begin with `err := rs.next.Send(ctx, req)`")
+	}
+	var out strings.Builder
+	d := 1
+	line := func(t string) { out.WriteString(ind(d) + t + "\n") }
+	line("let narrowed := false")
+	var selectCases []string
+	done := false
+	for k, s := range stmts[1:] {
+		if done {
+			die("%s: retry step: statement after the blocking select", pos(s))
+		}
+		switch x := s.(type) {
+		case *ast.IfStmt:
+			// `if c { return … }`
+			if r := singleReturn(x.Body.List); r != nil && x.Else == nil {
+				cond := ""
+				if x.Init != nil {
+					if stmtStr(x.Init) != "deadline, has := ctx.Deadline()" {
+						die("%s: retry step: unknown if-initialiser `%s`", pos(x), stmtStr(x.Init))
+					}
+				}
+				cond = stepCond(x.Cond)
+				line("if " + cond + " then " + stepRet(r) + " else")
+				continue
+			}
+			t := stmtStr(x)
+			switch t {
+			case "if errReq, ok := req.(request.ErrorHandler); ok { req = errReq.OnError(err) }":
+				line("let narrowed := i.hasErrorHandler")
+			case "if errors.As(err, &throttleErr) { backoffDelay = max(backoffDelay, throttleErr.delay) }":
+				line("let backoffDelay := if i.throttle.isSome then max backoffDelay (i.throttle.getD 0) else backoffDelay")
+			default:
+				die("%s: retry step: unknown if statement `%s`", pos(x), t)
+			}
+		case *ast.AssignStmt:
+			switch stmtStr(x) {
+			case "backoffDelay := expBackoff.NextBackOff()":
+				line("let backoffDelay := i.backoff")
+			case "throttleErr := throttleRetry{}":
+			case "nextRetryTime := time.Now().Add(backoffDelay)":
+				line("let nextRetryTime := i.now + backoffDelay")
+			default:
+				die("%s: retry step: unknown assignment `%s`", pos(x), stmtStr(x))
+			}
+		case *ast.SelectStmt:
+			hasDefault := false
+			var cases []string
+			for _, cl := range x.Body.List {
+				cc := cl.(*ast.CommClause)
+				if cc.Comm == nil {
+					hasDefault = true
+					if len(cc.Body) != 0 {
+						die("%s: retry step: default clause with a body", pos(cc))
+					}
+					continue
+				}
+				ch := strings.TrimPrefix(stmtStr(cc.Comm), "<-")
+				res := "continue"
+				if r := singleReturn(cc.Body); r != nil {
+					res = stepRet(r)
+				} else if len(cc.Body) != 0 {
+					die("%s: retry step: unknown select clause body", pos(cc))
+				}
+				cases = append(cases, ch+" => "+res)
+			}
+			if hasDefault {
+				// a poll: only `case <-rs.stopCh: return shutdown` is known
+				if len(cases) != 1 || cases[0] != "rs.stopCh => .retShutdown" {
+					die("%s: retry step: unknown polling select %v", pos(x), cases)
+				}
+				line("if i.stopClosed then .retShutdown else")
+			} else {
+				if k != len(stmts)-2 {
+					die("%s: retry step: the blocking select is not the last statement of the loop", pos(x))
+				}
+				selectCases = cases
+				line(".wait backoffDelay narrowed")
+				done = true
+			}
+		default:
+			die("%s: retry step: unknown statement `%s`", pos(s), stmtStr(s))
+		}
+	}
+	if !done {
+		die("retrySender.Send: the loop does not end with a blocking select")
+	}
+	// what precedes the loop: the budget instant
+	pre := blockStr(fd.Body.List[:indexOf(fd.Body.List, loop)])
+	wantPre := "expBackoff := backoff.ExponentialBackOff{InitialInterval: rs.cfg.InitialInterval, RandomizationFactor: rs.cfg.RandomizationFactor, Multiplier: rs.cfg.Multiplier, MaxInterval: rs.cfg.MaxInterval}; var maxElapsedTime time.Time; if rs.cfg.MaxElapsedTime > 0 { maxElapsedTime = time.Now().Add(rs.cfg.MaxElapsedTime) }"
+	if pre != wantPre {
+		die("retrySender.Send: unexpected statements before the loop: %s", pre)
+	}
+	c.out.WriteString(`/-- inputs of one iteration of the loop of ` + "`retrySender.Send`" + ` after ` + "`err := rs.next.Send(ctx, req)`" + ` returned: the classification
+of ` + "`err`" + `, what ` + "`NextBackOff`" + ` returned, the clock at ` + "`time.Now()`" + `, ` + "`maxElapsedTime`" + ` (` + "`none`" + ` = zero: ` + "`MaxElapsedTime <= 0`" + `, else entry instant +
+` + "`MaxElapsedTime`" + `), ` + "`ctx.Deadline()`" + `, whether ` + "`stopCh`" + ` is closed / ` + "`ctx.Err() != nil`" + ` at the polls -/
+structure StepIn where
+  errNil : Bool
+  permanent : Bool
+  hasErrorHandler : Bool
+  throttle : Option Int
+  backoff : Int
+  backoffStop : Int
+  now : Int
+  maxElapsed : Option Int
+  deadline : Option Int
+  stopClosed : Bool
+  ctxErr : Bool
+deriving Repr, DecidableEq
+
+/-- outcome of the iteration: a return (` + "`nil`" + `, ` + "`fmt.Errorf(\"<msg>: %w\", err)`" + `, ` + "`experr.NewShutdownErr(err)`" + `) or the blocking select with
+a timer of ` + "`d`" + ` (` + "`narrowed`" + `: ` + "`req = errReq.OnError(err)`" + ` was executed) -/
+inductive StepOut
+  | retNil
+  | retWrap (msg : String)
+  | retShutdown
+  | wait (d : Int) (narrowed : Bool)
+deriving Repr, DecidableEq
+
+`)
+	fmt.Fprintf(&c.out, "/-- the decision chain of one iteration of `retrySender.Send` (%s), compiled statement by statement: everything between\nthe call of the next sender and the blocking select -/\ndef retryStep (i : StepIn) : StepOut :=\n%s\n", relPos(loop), out.String())
+	fmt.Fprintf(&c.out, "/-- the blocking select that ends the iteration: (channel, outcome), in source order -/\ndef retrySelect : List String := %s\n\n", leanStrList(selectCases))
+}
+
+// timeoutSender.Send: `tCtx, cancelFunc := context.WithTimeout(ctx, ts.cfg.Timeout); defer cancelFunc(); return ts.next.Send(tCtx, req)`.
+// context.WithTimeout is a primitive (deadline = the earlier of the parent's and now + timeout); what is regenerated is WHICH
+// context and WHICH duration are used and that the derived context is the one handed on.
+func timeoutStep(c *comp, f *ast.File) {
+	fd := findFunc(f, "timeoutSender", "Send")
+	want := []string{"tCtx, cancelFunc := context.WithTimeout(ctx, ts.cfg.Timeout)", "defer cancelFunc()", "return ts.next.Send(tCtx, req)"}
+	if len(fd.Body.List) != len(want) {
+		die("timeoutSender.Send: expected %d statements", len(want))
+	}
+	for i, s := range fd.Body.List {
+		if stmtStr(s) != want[i] {
+			die("%s: timeoutSender.Send: statement %d is `%s`, expected `%s`", pos(s), i, stmtStr(s), want[i])
+		}
+	}
+	c.out.WriteString("/-- `timeoutSender.Send` (" + relPos(fd) + "): the deadline of the context handed to the next sender —\n`context.WithTimeout(ctx, ts.cfg.Timeout)` of the CALLER's context (primitive: the earlier of the parent's deadline and now + timeout), fresh on every call -/\n")
+	c.out.WriteString("def timeoutSendDeadline (parentDeadline : Option Int) (now timeout : Int) : Int :=\n  match parentDeadline with\n  | some d => min d (now + timeout)\n  | none => now + timeout\n\n")
+}
+
+func indexOf(l []ast.Stmt, s ast.Stmt) int {
+	for i, x := range l {
+		if x == s {
+			return i
+		}
+	}
+	return -1
 }
 
 func main() {
